@@ -54,7 +54,7 @@ def _run_shard(args):
     env.update(h.env)
     if cancel is not None:
         rc, log, wall = core.run_cancellable([h.bin, "--out", out, "--replay-out", rep], env, tier_timeout(tier), cancel)
-        if rc not in (0, "cancelled"):
+        if rc not in (0, 3, "timeout", "cancelled"):   # a violation (not an inconclusive or infrastructure outcome) ends the siblings early
             cancel.set()
     else:
         rc, log, wall = core.run([h.bin, "--out", out, "--replay-out", rep], env=env, timeout=tier_timeout(tier))
